@@ -200,6 +200,19 @@ def rule_conserve(rep, R):
         src_ok = self_field_root(ec["dst_base"]) == "input_buffers" and not [n for n, _ in ec["src_chain"] if n not in ("as_ref", "iter")]
         ok = src_ok and sp.simplify(skip - S) == 0 and take is not None and sp.simplify(take - CH) == 0
         detail = "input appended at [%s, %s+%s) of input_buffers" % (skip, skip, take)
+    if not loads:
+        # the same append written as one slice copy: input_buffers[chan][A..B].copy_from_slice(&wave_in[chan].as_ref()[..X])
+        for l_ in m["loops"]:
+            for c_ in l_["copies"]:
+                d_, s_ = c_["dst"], c_["src"]
+                while s_.get("k") == "ref":
+                    s_ = s_["e"]
+                if d_.get("k") == "index" and d_["i"].get("k") == "range" and self_field_root(d_["e"]) == "input_buffers" and d_["i"].get("lo") is not None and d_["i"].get("hi") is not None \
+                        and s_.get("k") == "index" and s_["i"].get("k") == "range" and s_["i"].get("lo") is None and s_["i"].get("hi") is not None \
+                        and any(is_path(x_, m["wave_in"]) for x_ in walk(s_)):
+                    lo_, hi_, x__ = alg.conv(d_["i"]["lo"]), alg.conv(d_["i"]["hi"]), alg.conv(s_["i"]["hi"])
+                    ok = sp.simplify(lo_ - S) == 0 and sp.simplify(hi_ - lo_ - CH) == 0 and sp.simplify(x__ - CH) == 0
+                    detail = "input appended at [%s, %s) of input_buffers from wave_in[..%s]" % (lo_, hi_, x__)
     rep.ob(R, "FftFixedIn/append", ok, detail + " (must be [saved, saved+chunk_size_in))", loc(fn))
     parks = [w for l in m["loops"] for w in l["within"]]
     ok = False
